@@ -138,24 +138,33 @@ def lift_py(v, st):
         for k, x in vars(v).items():
             o.attrs[k] = lift_py(x, st)
         return st.alloc(o)
+    if v is not None and not isinstance(v, (bool, int, float, complex, str, frozenset, set)):
+        return V.Native(v)  # any other real object (an enum member): itself, compared by identity
     return v
 
 
-def _pair(orig, cp, out):
+def _pair(orig, cp, out, _seen=None):
     """identity map copy -> original for the containers reachable from the arguments"""
+    import enum
+    import types
+
+    _seen = set() if _seen is None else _seen
+    if id(orig) in _seen or isinstance(orig, (type, enum.Enum, types.ModuleType, types.FunctionType)):
+        return  # shared, immutable or cyclic objects (an enum member reaches its class and back)
+    _seen.add(id(orig))
     if isinstance(orig, (dict, list, tuple)) or hasattr(orig, "__dict__"):
         out[id(cp)] = orig
     if isinstance(orig, dict):
         for k in orig:
             if k in cp:
-                _pair(orig[k], cp[k], out)
+                _pair(orig[k], cp[k], out, _seen)
     elif isinstance(orig, (list, tuple)):
         for a, b in zip(orig, cp):
-            _pair(a, b, out)
+            _pair(a, b, out, _seen)
     elif hasattr(orig, "__dict__") and hasattr(cp, "__dict__"):
         for k, a in vars(orig).items():
             if k in vars(cp):
-                _pair(a, vars(cp)[k], out)
+                _pair(a, vars(cp)[k], out, _seen)
 
 
 def real_call(contract, kwargs):
